@@ -85,14 +85,15 @@ def inIv (F : Fin) (a b d : Nat) : Bool :=
   if F.incl then F.ln * b ≤ c && c ≤ F.hn * b else F.ln * b < c && c < F.hn * b
 
 /-- the multiple of `a / b` (a power of ten, or one over a power of ten) that reads back as `F`, if there is one: only
-the two neighbours of the value can; if both do, the nearer -/
+the two neighbours of the value can; if both do, the nearer, and the even one when the value is exactly half-way (Ryu's
+rule, in PostgreSQL's float output and in every shortest-digits printer that breaks ties by round-half-even) -/
 def tryAt (F : Fin) (a b : Nat) : Option Nat :=
   let s := a * F.den
   let dlo := F.vn * b / s
   let r := F.vn * b % s
   let okLo := inIv F a b dlo
   let okHi := inIv F a b (dlo + 1)
-  if okLo && okHi then some (if 2 * r ≤ s then dlo else dlo + 1)
+  if okLo && okHi then some (if 2 * r < s then dlo else if 2 * r > s then dlo + 1 else if dlo % 2 == 0 then dlo else dlo + 1)
   else if okLo then some dlo
   else if okHi then some (dlo + 1)
   else none
@@ -124,7 +125,7 @@ def shortest (F : Fin) : Nat × Int :=
 
 /-! ### layouts -/
 
-def zeros (n : Nat) : Bytes := List.replicate n 48
+def zeroDigits (n : Nat) : Bytes := List.replicate n 48
 
 /-- `d · 10^k` written out: all integer digits, and the fraction digits after a point when k < 0 -/
 def positional (d : Nat) (k : Int) : Bytes :=
@@ -133,7 +134,7 @@ def positional (d : Nat) (k : Int) : Bytes :=
   | .negSucc j' =>
     let j := j' + 1
     let fr := dec (d % 10 ^ j)
-    dec (d / 10 ^ j) ++ [46] ++ zeros (j - fr.length) ++ fr
+    dec (d / 10 ^ j) ++ [46] ++ zeroDigits (j - fr.length) ++ fr
 
 /-- C's `%e` with all the digits: `d.ddde±XX` (exponent at least two digits) -/
 def expForm (d : Nat) (k : Int) : Bytes :=
